@@ -11,8 +11,18 @@ PRELUDE = r'''
 int vs_exc; bool g_hit_end;
 #define CR ((char)0xD)
 #define LF ((char)0xA)
+/* well-formed cursor: three separate objects (cursor, stream buffer, byte area).  -DVS_LIGHT states the same (validity +
+   separation) with r_ok/same_object instead of is_fresh: much cheaper when a caller's proof replaces dozens of calls by contracts */
+#ifndef VS_LIGHT
 #define CUR_PRE(c) (FRESH(c, sizeof(*(c))) && FRESH((c)->buf, sizeof(*(c)->buf)) && (c)->buf->len <= MAXLEN \
    && (c)->buf->pos <= (c)->buf->len && FRESH((c)->buf->base, (c)->buf->len))
+#define LIT_PRE(p, n) FRESH(p, n)
+#else
+#define CUR_PRE(c) (__CPROVER_rw_ok(c, sizeof(*(c))) && __CPROVER_rw_ok((c)->buf, sizeof(*(c)->buf)) && (c)->buf->len <= MAXLEN \
+   && (c)->buf->pos <= (c)->buf->len && __CPROVER_r_ok((c)->buf->base, (c)->buf->len) \
+   && !__CPROVER_same_object(c, (c)->buf) && !__CPROVER_same_object((c)->buf->base, c) && !__CPROVER_same_object((c)->buf->base, (c)->buf))
+#define LIT_PRE(p, n) (__CPROVER_r_ok(p, n) && !__CPROVER_same_object(p, cursor) && !__CPROVER_same_object(p, cursor->buf))
+#endif
 #define SB_PRE(b) (FRESH(b, sizeof(*(b))) && (b)->len <= MAXLEN && (b)->pos <= (b)->len && FRESH((b)->base, (b)->len))
 #define POS(c) ((c)->buf->pos)
 #define LEN(c) ((c)->buf->len)
@@ -41,6 +51,11 @@ __CPROVER_requires(__CPROVER_w_ok(end, sizeof(*end)))
 __CPROVER_assigns(*end)
 __CPROVER_ensures(IN_RANGE(p, *end, p + g_w));
 size_t g_k; size_t g_w;
+/* memcpy: reads [src, src+n), writes [dst, dst+n); content through the ghost sample g_k */
+void *vs_memcpy(void *dst, const void *src, size_t n)
+__CPROVER_requires(n <= 4096 && __CPROVER_w_ok(dst, n) && __CPROVER_r_ok(src, n))
+__CPROVER_assigns(__CPROVER_object_upto(dst, n))
+__CPROVER_ensures(g_k < n ==> ((const char *)dst)[g_k] == ((const char *)src)[g_k]);
 '''
 
 TYPES = {
@@ -75,12 +90,12 @@ STUBS = {
     'std::initializer_list<char>::begin': 'vs_ilist_begin',
     'std::initializer_list<char>::end': 'vs_ilist_end',
     'tolower': 'vs_tolower',
-    'memcmp': 'vs_memcmp',
+    'memcmp': 'vs_memcmp', 'memcpy': 'vs_memcpy',
     'strncmp': 'vs_strncmp',
     'strtod': 'vs_strtod',
     'eof': 'vs_traits_eof',
 }
-ALWAYS_REPLACE = ['vs_memcmp', 'vs_strncmp', 'vs_strtod']
+ALWAYS_REPLACE = ['vs_memcmp', 'vs_strncmp', 'vs_strtod', 'vs_memcpy']
 RECORDS = ['Pistache::StreamCursor', 'Pistache::StreamCursor::Token', 'Pistache::StreamCursor::Revert']
 EXCEPTIONS = {}
 
@@ -171,7 +186,7 @@ FUNCTIONS = [
     {'q': 'Pistache::match_raw',
      'exit_ghost': 'if (!vs_ret && cursor->buf->len - cursor->buf->pos < len) g_hit_end = 1;',
      'contract': '''
-        requires CUR_PRE(cursor) && len <= MAXLEN && FRESH(buf, len)
+        requires CUR_PRE(cursor) && len <= MAXLEN && LIT_PRE(buf, len)
         assigns POS(cursor), g_hit_end
         ensures RET ==> (len <= LEN(cursor) - OLD(POS(cursor)) && POS(cursor) == OLD(POS(cursor)) + len)
         ensures !RET ==> POS(cursor) == OLD(POS(cursor))
@@ -180,7 +195,7 @@ FUNCTIONS = [
     {'q': 'Pistache::match_string', 'sig': 'bool (const char *, size_t',
      'exit_ghost': 'if (!vs_ret && cursor->buf->len - cursor->buf->pos < len) g_hit_end = 1;',
      'contract': '''
-        requires CUR_PRE(cursor) && len <= MAXLEN && FRESH(str, len)
+        requires CUR_PRE(cursor) && len <= MAXLEN && LIT_PRE(str, len)
         assigns POS(cursor), g_hit_end
         ensures RET ==> (len <= LEN(cursor) - OLD(POS(cursor)) && POS(cursor) == OLD(POS(cursor)) + len)
         ensures !RET ==> POS(cursor) == OLD(POS(cursor))
@@ -204,7 +219,7 @@ FUNCTIONS = [
         ensures RET ==> (POS(cursor) < LEN(cursor) && IFF(g_hit_end, OLD(g_hit_end)))
         ensures (RET && cs == Pistache_CaseSensitivity_Insensitive) ==> BYTE(cursor, POS(cursor)) == vs_tolower(c)'''},
     {'q': 'Pistache::match_until', 'sig': 'initializer_list', 'c': 'Pistache_match_until_il', 'contract': '''
-        requires CUR_PRE(cursor) && chars.n <= 4 && FRESH(chars.b, chars.n)
+        requires CUR_PRE(cursor) && chars.n <= 4 && LIT_PRE(chars.b, chars.n)
         assigns POS(cursor), g_hit_end
         ensures OLD(POS(cursor)) <= POS(cursor) && POS(cursor) <= LEN(cursor)
         ensures !RET ==> (POS(cursor) == LEN(cursor) && g_hit_end)
@@ -226,13 +241,14 @@ FUNCTIONS = [
         ensures (*cl->cs == Pistache_CaseSensitivity_Insensitive && cl->chars->n == 3) ==> (RET == (vs_tolower(cl->chars->b[0]) == val || vs_tolower(cl->chars->b[1]) == val || vs_tolower(cl->chars->b[2]) == val))
         ensures cl->chars->n == 0 ==> !RET'''},
     {'q': 'Pistache::match_double',
-     'contract': '''
+     'ghost': [('vs_strtod', 'before', 'g_w = len;')],
+     'contract': """
         requires CUR_PRE(cursor) && FRESH(val, sizeof(*val))
-        requires g_w < LEN(cursor) - POS(cursor) && VS_SCAN_STOPS(BYTE(cursor, POS(cursor)), BYTE(cursor, POS(cursor) + g_w))
-        assigns POS(cursor), *val, g_hit_end
-        ensures OLD(POS(cursor)) <= POS(cursor) && POS(cursor) <= OLD(POS(cursor)) + g_w
+        assigns POS(cursor), *val, g_hit_end, g_w
+        # reads only the bytes that are left (a bounded, terminated copy is scanned), and moves forward by what the numeral took
+        ensures OLD(POS(cursor)) <= POS(cursor) && POS(cursor) <= LEN(cursor) && POS(cursor) - OLD(POS(cursor)) <= 63
         ensures RET == (POS(cursor) != OLD(POS(cursor)))
-        ensures IFF(g_hit_end, OLD(g_hit_end))'''},
+        ensures IFF(g_hit_end, OLD(g_hit_end))"""},
     {'q': 'Pistache::skip_whitespaces', 'contract': '''
         requires CUR_PRE(cursor)
         assigns POS(cursor), g_hit_end
